@@ -33,6 +33,11 @@ def run(ctx):
     cases, reqs, views, nviews = [], [], [], []
     for t, muts in make_cases(ctx, tg, n):
         impl.reset()
+        if ctx.rng.random() < 0.25:
+            # node ids are caller-supplied strings and need not be unique inside a tree (a subtree cloned through JSON keeps its ids)
+            ns_ = [x for _, x in gen.nodes_of(t)]
+            for x in ctx.rng.sample(ns_, min(len(ns_), ctx.rng.choice([2, 3, 5]))):
+                x[0] = ctx.rng.choice(["DUP-a", "dup-b"])
         root = impl.build(t)
         cases.append((t, muts))
         views.append(treeval.tree_views(root))
